@@ -59,6 +59,11 @@ theorem onVec_ok {α} (o : VSt) (x : VM α) (s : St) (a : α) (s1 : St) (h : x {
     VM.onVec o x s = (.ok (a, s1.v), { s1 with v := s.v }) := by
   unfold VM.onVec; rw [h]
 
+/-- running a pure read on another vector -/
+theorem onVec_read {α} (o : VSt) (x : VM α) (s : St) (a : α) (h : x { s with v := o } = (.ok a, { s with v := o })) :
+    VM.onVec o x s = (.ok (a, o), s) := by
+  unfold VM.onVec; rw [h]
+
 /-- reading element `i` of a borrowed well-formed vector leaves everything as it was -/
 theorem readOf_spec (X : Ctx) (src : VSt) (es : List Elem) (h : Abs X src es) (i : Nat) (hi : i < es.length) (s : St) :
     Vec.readOf X src i s = (.ok es[i], s) := by
